@@ -87,6 +87,39 @@ class Rec:
         }
 
 
+LP_TIME_LIMIT_S = 20.0
+LP_TIME_LIMITED = [0]
+
+
+def install_lp_time_limit():
+    """HiGHS' interior point method can loop for ever on a degenerate LP (seen once in a thorough run: ipx::IPM::Driver spinning for
+    80 CPU-minutes inside scipy.optimize.linprog, GIL released).  A hang is neither a pass nor a violation, so every linprog call made
+    in a worker or twin process - optyx's and the reference's alike - gets HiGHS' own `time_limit` option unless the caller set one.
+    A call that hits the limit returns status 1; the checks count those as non-comparable (LP_TIME_LIMITED)."""
+    import scipy.optimize as SO
+
+    if getattr(SO.linprog, "_vmon_time_limit", False):
+        return
+    orig = SO.linprog
+
+    def linprog(*args, **kwargs):
+        opts = dict(kwargs.get("options") or {})
+        if "time_limit" not in opts:
+            opts["time_limit"] = LP_TIME_LIMIT_S
+            kwargs["options"] = opts
+        res = orig(*args, **kwargs)
+        try:
+            if getattr(res, "status", 0) == 1 and "time" in str(getattr(res, "message", "")).lower():
+                LP_TIME_LIMITED[0] += 1
+        except Exception:
+            pass
+        return res
+
+    linprog._vmon_time_limit = True
+    linprog.__wrapped__ = orig
+    SO.linprog = linprog
+
+
 # Observation rescaling for "numerically special" workloads: a case whose data were multiplied by an exact power of two s (tiny
 # coefficient arrays, a tiny constant factor) sets SCALE_INV[0] = 1/s; observed and reference values are both multiplied by it before
 # the comparison, so that the absolute floor of the tolerance (max(1, |ref|)) does not hide a dropped tiny term.  Multiplication by a
